@@ -3,11 +3,14 @@ package mon
 import (
 	"crypto"
 	"crypto/ecdsa"
+	"crypto/ed25519"
 	"crypto/elliptic"
 	"encoding/base64"
+	"encoding/binary"
 	"fmt"
 	"math/big"
 	"sync"
+	"verifharness/model"
 
 	"github.com/miekg/dns"
 )
@@ -103,4 +106,40 @@ func shortScalarKey(alg uint8, owner string, flags uint16, seed uint64) (*sigKey
 	k := &dns.DNSKEY{Hdr: dns.RR_Header{Name: owner, Rrtype: dns.TypeDNSKEY, Class: dns.ClassINET, Ttl: 3600}, Flags: flags, Protocol: 3, Algorithm: alg,
 		PublicKey: base64.StdEncoding.EncodeToString(pub)}
 	return &sigKey{Alg: alg, Bits: n * 8, Key: k, Priv: priv}, nil
+}
+
+// doubleCarryKey returns an Ed25519 zone key whose RFC 4034 Appendix B sum needs the carry folded
+// in such that (sum&0xFFFF)+(sum>>16) >= 0x10000 - about one key in 8000; found by walking
+// deterministic seeds (a few thousand key derivations, well under a second), cached per process.
+func doubleCarryKey(owner string, flags uint16) (*sigKey, error) {
+	id := fmt.Sprintf("double-carry/%s/%d", owner, flags)
+	keyMu.Lock()
+	defer keyMu.Unlock()
+	if k, ok := keyCache[id]; ok {
+		return k, nil
+	}
+	seed := make([]byte, ed25519.SeedSize)
+	for ctr := uint32(0); ctr < 400000; ctr++ {
+		binary.BigEndian.PutUint32(seed[len(seed)-4:], ctr)
+		priv := ed25519.NewKeyFromSeed(seed)
+		pub := priv.Public().(ed25519.PublicKey)
+		rd := model.KeyRdata(flags, 3, dns.ED25519, pub)
+		var ac uint32
+		for i, b := range rd {
+			if i&1 == 1 {
+				ac += uint32(b)
+			} else {
+				ac += uint32(b) << 8
+			}
+		}
+		if (ac&0xFFFF)+(ac>>16) < 0x10000 {
+			continue
+		}
+		k := &dns.DNSKEY{Hdr: dns.RR_Header{Name: owner, Rrtype: dns.TypeDNSKEY, Class: dns.ClassINET, Ttl: 3600}, Flags: flags, Protocol: 3, Algorithm: dns.ED25519,
+			PublicKey: base64.StdEncoding.EncodeToString(pub)}
+		sk := &sigKey{Alg: dns.ED25519, Bits: 256, Key: k, Priv: priv}
+		keyCache[id] = sk
+		return sk, nil
+	}
+	return nil, fmt.Errorf("no double-carry key found")
 }
